@@ -382,6 +382,70 @@ func toCase(m mirror, kind string) emit.Case {
 	return emit.Case{Coq: coq, JSON: m, Nontrivial: ntasks >= 2, Kind: kind, Sig: signature(m)}
 }
 
+// stress: [subs] goroutines submit one-task jobs to ONE pool as fast as they can (NewJob / Go / Done / Wait), about
+// half of the tasks fail; each submitter compares the verdict of its own job with the outcome of its own task.  The
+// window between "a failing task returned" and "its error is recorded for the job" is a few instructions wide and
+// contention on NewJob widens it; a lost or misattributed error shows up as a job whose verdict disagrees with its
+// single task.  The case handed to the checker is that job's own trace (or, when every verdict agreed, the trace of
+// one failing job), renumbered as job 0 of a one-job history on the same number of workers.
+func stress(r *rand.Rand, subs, perSub int) emit.Case {
+	const nWorkers = 4
+	w := workers.NewParallel(nWorkers, subs+1)
+	type obs struct {
+		fail bool
+		res  int
+	}
+	bad := make(chan obs, subs)
+	seeds := make([]int64, subs)
+	for i := range seeds {
+		seeds[i] = r.Int63()
+	}
+	var wg sync.WaitGroup
+	for sidx := 0; sidx < subs; sidx++ {
+		wg.Add(1)
+		go func(seed int64) {
+			defer wg.Done()
+			rr := rand.New(rand.NewSource(seed))
+			for k := 0; k < perSub; k++ {
+				fail := rr.Intn(2) == 0
+				job, err := w.NewJob(1)
+				if err != nil {
+					return
+				}
+				job.Go(func() error {
+					if fail {
+						return &taskErr{0, 0}
+					}
+					return nil
+				})
+				job.Done(nil)
+				res := resCode(0, job.Wait())
+				if (res != 0) != fail {
+					select {
+					case bad <- obs{fail, res}:
+					default:
+					}
+					return
+				}
+			}
+		}(seeds[sidx])
+	}
+	wg.Wait()
+	w.Stop()
+	o := obs{fail: true, res: resCode(0, &taskErr{0, 0})}
+	kind := "stress/all-verdicts-agree"
+	select {
+	case o = <-bad:
+		kind = "stress/verdict-disagrees-with-own-task"
+	default:
+	}
+	m := mirror{input: input{Workers: nWorkers, MaxJobs: subs + 1, Procs: 0, StopAt: -1, Gen: kind,
+		Jobs: []jobIn{{Tasks: []taskIn{{Fail: o.fail}}}}}}
+	m.Events = []evJ{{T: "newcall", J: 0}, {T: "new", J: 0, OK: true}, {T: "go", J: 0, I: 0}, {T: "donecall", J: 0},
+		{T: "beg", J: 0, I: 0}, {T: "end", J: 0, I: 0, OK: !o.fail}, {T: "wait", J: 0, R: o.res}}
+	return toCase(m, kind)
+}
+
 // ---- generators ----------------------------------------------------------------------------------------
 
 func genInput(r *rand.Rand) input {
@@ -516,6 +580,9 @@ func TestDriver(t *testing.T) {
 		return
 	}
 	r := env.Rand()
+	for i := 0; i < 3; i++ {
+		_ = w.Put(stress(r, 8, 4000))
+	}
 	hangs := 0
 	for w.Count() < env.N && hangs < 2 {
 		in := genInput(r)
